@@ -396,6 +396,23 @@ func runC16(c Case, m *Model) (v Verdict) {
 			if after := showSMF(s); after != before {
 				v.Oracle = append(v.Oracle, "the source was modified by the conversion: "+short(after))
 			}
+			// converting the same value again gives the same, and the first result is not disturbed by it;
+			// the result (format 1) converts to itself
+			first := showSMF(&dest)
+			var dest2, dest3 smf.SMF
+			if p2 := try(func() { dest2 = s.ConvertToSMF1(); dest3 = dest.ConvertToSMF1() }); p2 != "" {
+				v.Oracle = append(v.Oracle, "panic when converting again: "+p2)
+			} else {
+				if showSMF(&dest2) != first {
+					v.Oracle = append(v.Oracle, "a second conversion of the same source differs from the first: "+short(showSMF(&dest2)))
+				}
+				if showSMF(&dest) != first {
+					v.Oracle = append(v.Oracle, "the first result changed while the source was converted again: "+short(showSMF(&dest)))
+				}
+				if showSMF(&dest3) != first {
+					v.Oracle = append(v.Oracle, "converting the (format 1) result again changed it: "+short(showSMF(&dest3)))
+				}
+			}
 		}
 	}
 	if mr == "unmodelled" {
